@@ -8,7 +8,7 @@ from .skeletons import skeleton, U7, U9, UN3, KINDS_SMALL, KINDS_MED, KINDS_ALL
 from .mutate import mutate
 
 LEVEL = 'model_checking'
-BUDGET_S = {'quick': 150, 'thorough': 1500}
+BUDGET_S = {'quick': 170, 'thorough': 1800}
 MUT_PATHS = ['in', 'in/x', 'o', 'o/f', 'o/d', 'o/d/g']
 MUT_KINDS = ['none', 'delete', 'write', 'touch', 'mkdir', 'rmtree', 'file2dir', 'dir2file']
 
@@ -32,15 +32,15 @@ def families(tier):
     q = [
         {'name': 'A1a', 'params': {'hist': 'BMB', 'kinds': KINDS_ALL, 'roles': ['in/x', 'in', 'o', 'o/f', 'o/d']}},
         {'name': 'A2a', 'params': {'hist': 'BMB', 'kinds': KINDS_MED}},
-        {'name': 'A3', 'params': {'hist': 'BMB', 'kinds': ['is_file', 'list_dir'], 'roles': ['o'], 'targets': ['o/d/g'],
+        {'name': 'A3', 'params': {'hist': 'BMB', 'kinds': ['list_dir'], 'roles': ['o'], 'targets': ['o/d/g'],
                                   'mut_paths': mp4}},
         {'name': 'A3', 'params': {'hist': 'BMB', 'kinds': ['read_m'], 'roles': ['in/x'], 'targets': ['o/f', 'in/y'],
                                   'modes': ['ok', 'raise_after'], 'mut_paths': ['in/x', 'in', 'o/f', 'in/y']}},
         {'name': 'A4', 'params': {'hist': 'BMB', 'kinds': ['is_dir', 'read_m'], 'roles': ['o'], 'targets': ['o/d/g'],
                                   'mut_paths': mp4}},
-        {'name': 'A5a', 'params': {'hist': 'BMB', 'modes': ['ok', 'raise_after'], 'mut_paths': mp4}},
-        {'name': 'A5b', 'params': {'hist': 'BMB', 'modes': ['ok', 'raise_before'], 'mut_paths': mp4}},
-        {'name': 'A6', 'params': {'hist': 'BMB', 'kinds': ['is_dir', 'list_dir'], 'mut_paths': ['o', 'o/d', 'o/x']}},
+        {'name': 'A5a', 'params': {'hist': 'BMB', 'modes': ['ok', 'raise_after'], 'mut_paths': ['o', 'o/d', 'o/d/g']}},
+        {'name': 'A5b', 'params': {'hist': 'BMB', 'modes': ['ok', 'raise_before'], 'mut_paths': ['o', 'o/d', 'o/d/g']}},
+        {'name': 'A6', 'params': {'hist': 'BMB', 'kinds': ['is_dir', 'list_dir'], 'mut_paths': ['o/d', 'o/x']}},
         {'name': 'A7', 'params': {'hist': 'BMB', 'kinds': ['is_file'], 'roles': ['in/x'], 'targets': ['o/f'],
                                   'mut_paths': ['in/x', 'in', 'o/f']}},
         {'name': 'A8', 'params': {'hist': 'BB', 'kinds': ['is_dir', 'is_file', 'list_dir']}},
